@@ -36,7 +36,8 @@ for s in seeds:
         meta['missed_by'] = {'check': f'./check {prop} --tier {tier}', 'exit': p.returncode, 'tail': p.stdout[-300:]}
     else:
         meta.pop('missed_by', None)
-    json.dump(meta, open(mp, 'w'), indent=1)
+    if '--no-record' not in sys.argv:
+        json.dump(meta, open(mp, 'w'), indent=1)
     print(s, 'CAUGHT' if meta['caught_by'] else f'MISSED (exit {p.returncode})', (detail[0][:140] if detail else ''), f'{time.time() - t0:.0f}s', flush=True)
 
 subprocess.run([f'{V}/check', '--setup'], capture_output=True)   # regenerate coq/Generated from the restored tree
